@@ -47,6 +47,18 @@ Proof.
   rewrite N2Z.inj_pow. apply Z.mod_pos_bound. exact H.
 Qed.
 
+Lemma has_prefix_nil s : has_prefix s [] = true.
+Proof. destruct s; reflexivity. Qed.
+
+(* literal strings to explicit byte lists, then decide the switch *)
+Ltac norm_lits :=
+  repeat match goal with
+  | |- context [s2b ?s] => let v := eval vm_compute in (s2b s) in change (s2b s) with v
+  end.
+Ltac class_tac :=
+  unfold augment_one, has_pfx; norm_lits;
+  cbn [app beq has_prefix N.eqb Pos.eqb andb orb]; rewrite ?has_prefix_nil; reflexivity.
+
 Section Proofs.
   Variables f32 f64 : N -> bytes.
   Variable isptr : N -> bool.
@@ -63,22 +75,22 @@ Section Proofs.
   Lemma one_ptr vals i elem flat :
     aone vals i (s2b "*" ++ elem) flat =
     let '(nm, f1) := pop_name flat in ((s2b "*" ++ elem) ++ s2b "(" ++ nm ++ s2b ")", f1).
-  Proof. cbv -[pop_name pop_fmt N_to_dec app]. reflexivity. Qed.
+  Proof. class_tac. Qed.
   Lemma one_map vals i text flat :
     aone vals i (s2b "map[" ++ text) flat =
     let '(nm, f1) := pop_name flat in ((s2b "map[" ++ text) ++ s2b "(" ++ nm ++ s2b ")", f1).
-  Proof. cbv -[pop_name pop_fmt N_to_dec app]. reflexivity. Qed.
+  Proof. class_tac. Qed.
   Lemma one_chan vals i text flat :
     aone vals i (s2b "chan " ++ text) flat =
     let '(nm, f1) := pop_name flat in ((s2b "chan " ++ text) ++ s2b "(" ++ nm ++ s2b ")", f1).
-  Proof. cbv -[pop_name pop_fmt N_to_dec app]. reflexivity. Qed.
+  Proof. class_tac. Qed.
   Lemma one_slice vals i elem flat :
     aone vals i (s2b "[]" ++ elem) flat =
     let '(nm, f1) := pop_name flat in
     let '(ln, f2) := pop_fmt udec f1 in
     let '(cp, f3) := pop_fmt udec f2 in
     ((s2b "[]" ++ elem) ++ s2b "(" ++ nm ++ s2b " len=" ++ ln ++ s2b " cap=" ++ cp ++ s2b ")", f3).
-  Proof. cbv -[pop_name pop_fmt N_to_dec app]. reflexivity. Qed.
+  Proof. class_tac. Qed.
 
   (* which branch of the switch a parameter's type name selects: the number
      of words it consumes is the number of words it occupies, whatever the
@@ -306,12 +318,10 @@ Section Proofs.
       + destruct a as [ag nm v p tl ia fv fp fe]. destruct ag.
         * exists (List.length (arg_leaves (MkArg true nm v p tl ia fv fp fe))).
           split; [|intros _; apply nth_error_Some; congruence].
-          match goal with |- snd (let '(fields, f1) := ?X in _) = _ =>
-            pose proof (popn_snd (List.length (arg_leaves (MkArg true nm v p tl ia fv fp fe))) flat) as HS;
-            destruct X as [fields f1] eqn:EX end.
-          cbn [snd]. cbn [snd] in HS. rewrite <- HS.
-          match type of EX with ?L = _ => match goal with |- _ = snd ?R => change R with L end end.
-          rewrite EX. reflexivity.
+          pose proof (popn_snd (List.length (arg_leaves (MkArg true nm v p tl ia fv fp fe))) flat) as HS.
+          match goal with |- snd (let '(fields, f1) := ?X in _) = ?R =>
+            change (snd X = R) in HS; destruct X as [fields f1] end.
+          cbn [snd] in *. exact HS.
         * exists 2. destruct flat as [|a1 [|a2 flat]]; split; try reflexivity; discriminate.
       + exists 2. destruct flat as [|a1 [|a2 flat]]; split; try reflexivity; discriminate.
   Qed.
